@@ -655,13 +655,13 @@ pub fn run(ctx: &mut Ctx) {
         "non-power-of-two ring sizes within the maximum are outside the statement (counted, not judged)".into(),
         "queue state is sampled inside the worker thread at a barrier (custom listener), i.e. what the back end would see".into(),
     ];
-    let cases = ctx.tier.pick(4000u32, 120_000u32);
+    let cases = ctx.tier.pick(4000u32, 500_000u32);
     let wrap = prop_oneof![Just(Wrap::Direct), Just(Wrap::Mutex), Just(Wrap::RwLock)];
     let strat = (any::<bool>(), wrap, proptest::collection::vec(op_strategy(), 1..=24), any::<bool>()).prop_map(|(rwlock, wrap, ops, device_omits_reply_ack)| Hist { rwlock, wrap, ops, device_omits_reply_ack });
     ctx.prop_check("histories", cases, strat, |ctx, h| run_hist(ctx, h));
 
     // SET_FEATURES relative to arbitrary offered masks (the histories above use one fixed offer that contains bit 30)
-    let cases = ctx.tier.pick(400u32, 20_000u32);
+    let cases = ctx.tier.pick(400u32, 60_000u32);
     let offered = prop_oneof![
         2 => Just(OFFERED),
         2 => Just(OFFERED & !spec::VIRTIO_F_PROTOCOL_FEATURES),
